@@ -34,7 +34,7 @@ def programs(tier):
         "vars": {}, "classes": {"Fast": {"LIMIT": 1, "NAME": "f"}, "Slow": {"LIMIT": 2, "NAME": "s"}}}))
     progs.append(("in-place-fill", {
         "funcs": [mkfunc("R", calls=[call("D")], reads=["GL", "GD"], rich=False), mkfunc("D", kind="plain", reads=["GL"], rich=False)],
-        "vars": {"GL": [1], "GD": {}}, "stmts": {"@fill_list": "GL.append(2)", "@fill_dict": "GD['k'] = 3"}}))
+        "vars": {"GL": [1], "GD": {}}, "stmts": {"@fill_list": "GL.append(2)", "@fill_dict": "GD['k'] = 3", "@fill_dict2": "GD['a'] = 4"}}))
     # a memento function and a plain function of ANOTHER package, both referenced from the root (and through a helper)
     progs.append(("cross-package-siblings", {
         "funcs": [mkfunc("R", calls=[call("G", "xpkg"), call("K", "xpkg"), call("P")], rich=False),
